@@ -128,6 +128,9 @@ func c04Poll(what string, cond func() bool) error {
 
 const c04Workers = 4096
 
+// term given to oracle failures that have no case of their own (see common.go.tmpl)
+const c04NoCase = "(CSov [])%Z"
+
 type c04Ev struct {
 	kind    int
 	ids     []int
@@ -629,7 +632,7 @@ func c04Contended(out *vOut, r *vRand) error {
 			i := fired[nfiredSeen][0]
 			for _, id := range reqIDs[i] {
 				if !reqForeign[i] && !doneIDs[id] {
-					out.Oracle("done-before-batch-finished", "", fmt.Sprintf("contended workers=%d request=%d fired before the batch holding id %d returned", workers, i, id))
+					out.Oracle("done-before-batch-finished", c04NoCase, fmt.Sprintf("contended workers=%d request=%d fired before the batch holding id %d returned", workers, i, id))
 				}
 			}
 		}
@@ -773,53 +776,9 @@ func c04Contended(out *vOut, r *vRand) error {
 			return err
 		}
 	}
-	// ---- direct oracle ----
 	rig.mu.Lock()
 	fired := append([][2]int(nil), rig.fired...)
 	rig.mu.Unlock()
-	cnt, ferr := map[int]int{}, map[int]int{}
-	for _, f := range fired {
-		cnt[f[0]]++
-		ferr[f[0]] = f[1]
-	}
-	detail := fmt.Sprintf("contended workers=%d min=%d max=%d", workers, min, max)
-	for i := 0; i < nreq; i++ {
-		if cnt[i] != 1 {
-			out.Oracle("done-not-exactly-once", "", fmt.Sprintf("%s request=%d fired=%d times", detail, i, cnt[i]))
-			continue
-		}
-		if reqForeign[i] {
-			if ferr[i] != 1 {
-				out.Oracle("done-error-mismatch", "", fmt.Sprintf("%s request=%d MergeSplit failed but done reported success", detail, i))
-			}
-			continue
-		}
-		anyFail := false
-		for _, id := range reqIDs[i] {
-			switch exportedAt[id] {
-			case 1:
-				anyFail = anyFail || batchFailed[idBatch[id]]
-			case 0:
-				out.Oracle("batch-lost-item", "", fmt.Sprintf("%s request=%d id=%d never exported", detail, i, id))
-			default:
-				out.Oracle("batch-duplicate", "", fmt.Sprintf("%s request=%d id=%d exported %d times", detail, i, id, exportedAt[id]))
-			}
-		}
-		if (ferr[i] == 1) != anyFail {
-			out.Oracle("done-error-mismatch", "", fmt.Sprintf("%s request=%d reported error=%d but a batch failed=%v contended", detail, i, ferr[i], anyFail))
-		}
-	}
-	for b, ids := range batches {
-		if max > 0 && len(ids) > max {
-			out.Oracle("batch-size-bound", "", fmt.Sprintf("%s batch=%d items=%d", detail, b, len(ids)))
-		}
-	}
-	out.Stat("contended.histories", 1)
-	out.Stat(fmt.Sprintf("contended.workers_%d", workers), 1)
-	if unreliable {
-		out.Stat("contended.discarded_ordering", 1)
-		return nil
-	}
 	// ---- case term ----
 	evt := make([]string, len(evs))
 	for i, e := range evs {
@@ -850,7 +809,52 @@ func c04Contended(out *vOut, r *vRand) error {
 	for i, f := range fired {
 		ft[i] = fmt.Sprintf("(%d,%d)", f[0], f[1])
 	}
-	out.Case(len(batches) > 1, fmt.Sprintf("(CBatC %d %d %d %d [%s] [%s] [%s])%%Z", min, max, c04Slack, workers, strings.Join(evt, ";"), strings.Join(bt, ";"), strings.Join(ft, ";")))
+	term := fmt.Sprintf("(CBatC %d %d %d %d [%s] [%s] [%s])%%Z", min, max, c04Slack, workers, strings.Join(evt, ";"), strings.Join(bt, ";"), strings.Join(ft, ";"))
+	// ---- direct oracle ----
+	cnt, ferr := map[int]int{}, map[int]int{}
+	for _, f := range fired {
+		cnt[f[0]]++
+		ferr[f[0]] = f[1]
+	}
+	detail := fmt.Sprintf("contended workers=%d min=%d max=%d", workers, min, max)
+	for i := 0; i < nreq; i++ {
+		if cnt[i] != 1 {
+			out.Oracle("done-not-exactly-once", term, fmt.Sprintf("%s request=%d fired=%d times", detail, i, cnt[i]))
+			continue
+		}
+		if reqForeign[i] {
+			if ferr[i] != 1 {
+				out.Oracle("done-error-mismatch", term, fmt.Sprintf("%s request=%d MergeSplit failed but done reported success", detail, i))
+			}
+			continue
+		}
+		anyFail := false
+		for _, id := range reqIDs[i] {
+			switch exportedAt[id] {
+			case 1:
+				anyFail = anyFail || batchFailed[idBatch[id]]
+			case 0:
+				out.Oracle("batch-lost-item", term, fmt.Sprintf("%s request=%d id=%d never exported", detail, i, id))
+			default:
+				out.Oracle("batch-duplicate", term, fmt.Sprintf("%s request=%d id=%d exported %d times", detail, i, id, exportedAt[id]))
+			}
+		}
+		if (ferr[i] == 1) != anyFail {
+			out.Oracle("done-error-mismatch", term, fmt.Sprintf("%s request=%d reported error=%d but a batch failed=%v contended", detail, i, ferr[i], anyFail))
+		}
+	}
+	for b, ids := range batches {
+		if max > 0 && len(ids) > max {
+			out.Oracle("batch-size-bound", term, fmt.Sprintf("%s batch=%d items=%d", detail, b, len(ids)))
+		}
+	}
+	out.Stat("contended.histories", 1)
+	out.Stat(fmt.Sprintf("contended.workers_%d", workers), 1)
+	if unreliable {
+		out.Stat("contended.discarded_ordering", 1)
+		return nil
+	}
+	out.Case(len(batches) > 1, term)
 	return nil
 }
 
@@ -861,19 +865,19 @@ func TestVerifC04Batcher(t *testing.T) {
 	n := vBudget(300, 12)
 	for i := 0; i < n; i++ {
 		if err := c04History(out, r, false); err != nil {
-			out.Oracle("batcher-stuck", "", err.Error())
+			out.Oracle("batcher-stuck", c04NoCase, err.Error())
 			t.Fatal(err)
 		}
 	}
 	for i := 0; i < vBudget(12, 4); i++ {
 		if err := c04History(out, r, true); err != nil {
-			out.Oracle("batcher-stuck", "", err.Error())
+			out.Oracle("batcher-stuck", c04NoCase, err.Error())
 			t.Fatal(err)
 		}
 	}
 	for i := 0; i < vBudget(120, 8); i++ {
 		if err := c04Contended(out, r); err != nil {
-			out.Oracle("batcher-stuck", "", err.Error())
+			out.Oracle("batcher-stuck", c04NoCase, err.Error())
 			t.Fatal(err)
 		}
 	}
@@ -891,7 +895,7 @@ func TestVerifC04Batcher(t *testing.T) {
 		rig := &c04Rig{}
 		db.Consume(context.Background(), &c04Fake{ids: []int{i}}, &c04Done{rig: rig, i: 0})
 		if calls != 1 || len(rig.fired) != 1 || (rig.fired[0][1] == 1) != fail {
-			out.Oracle("disabled-batcher", "", fmt.Sprintf("calls=%d fired=%v fail=%v", calls, rig.fired, fail))
+			out.Oracle("disabled-batcher", c04NoCase, fmt.Sprintf("calls=%d fired=%v fail=%v", calls, rig.fired, fail))
 		}
 	}
 	out.Stat("disabled_batcher.requests", 50)
@@ -905,7 +909,7 @@ func TestVerifC04Batcher(t *testing.T) {
 				out.Case(ok, fmt.Sprintf("(CCfg %s %s %s %v)%%Z", vZ(ft), vZ(mn), vZ(mx), ok))
 				ref := ft > 0 && mn >= 0 && mx >= 0 && !(mx > 0 && mx < mn)
 				if ok != ref {
-					out.Oracle("batch-config-validate", "", fmt.Sprintf("ft=%d min=%d max=%d valid=%v", ft, mn, mx, ok))
+					out.Oracle("batch-config-validate", c04NoCase, fmt.Sprintf("ft=%d min=%d max=%d valid=%v", ft, mn, mx, ok))
 				}
 			}
 		}
